@@ -102,7 +102,26 @@ let run (c : string) (obs : string) : string * string * string =
       else if BZ.sign ah = 0 && BZ.sign bh = 0 then "div-64bit"
       else if BZ.popcount ub = 1 then "div-pow2"
       else if BZ.leq ua ub then "div-le"
-      else if lz ub - lz ua > 16 then (if BZ.sign bh = 0 then "div-by64" else "div-by128") else "div-bin" in
+      else if lz ub - lz ua > 16 then begin
+        if BZ.sign bh = 0 then begin
+          (* how many corrections the two quotient-digit estimates of divmod128by64 need (estimate - true digit) *)
+          let s = 64 - BZ.numbits bl in
+          let v = BZ.shift_left bl s in
+          let vn1 = BZ.shift_right v 32 in
+          let b32 = BZ.shift_left BZ.one 32 in
+          let rem_hi = BZ.rem ah bl in                       (* the second 128/64 step divides (hi mod n, lo) *)
+          let u' = BZ.shift_left (BZ.add (BZ.mul rem_hi p64) al) s in
+          let un32 = BZ.shift_right u' 64 and un10 = BZ.logand u' (BZ.pred p64) in
+          let un1 = BZ.shift_right un10 32 and un0 = BZ.logand un10 (BZ.pred b32) in
+          let q1hat = BZ.div un32 vn1 in
+          let n1 = BZ.add (BZ.mul un32 b32) un1 in
+          let q1 = BZ.div n1 v in
+          let un21 = BZ.sub n1 (BZ.mul q1 v) in
+          let q0hat = BZ.div un21 vn1 in
+          let q0 = BZ.div (BZ.add (BZ.mul un21 b32) un0) v in
+          Printf.sprintf "div-by64:c1=%s,c0=%s" (BZ.to_string (BZ.sub q1hat q1)) (BZ.to_string (BZ.sub q0hat q0))
+        end else "div-by128" end
+      else "div-bin" in
     (m, verdict, cls)
   | _ -> ("BADCASE", "ok", "bad")
 
